@@ -180,6 +180,53 @@ def concatenateZ (byTol : Bool) (τ : Rat) (chans : List (List (Rat × Wave))) :
       mapMExcept (padChanO τ lastp.mode final ms) rs
     | _, _ => .ok (rs.map fun _ => none)
 
+/-! ## Repaired idle-gap test (fixes/C12-3.patch): `np.abs(start_time - last_pulse_time) > time_tol` with
+`time_tol = 1e-12 * max(|start times of all pulses|)` instead of `step_size * 1e-6` (first-pulse test by emptiness) -/
+
+/-- `max([abs(inst[0]) for insts in pulse_instructions for inst in insts], default=0.0)` -/
+def maxStart (chans : List (List (Rat × Wave))) : Rat :=
+  (chans.flatten.map (fun sw => absR sw.1)).foldl (fun a b => if a < b then b else a) 0
+
+/-- channel loop with the absolute gap threshold `thr` -/
+def chanLoopG (thr : Rat) : Bool → Rat → List (Rat × Wave) → Except Err (List Rat × List Rat × Rat)
+  | _, last, [] => .ok ([], [], last)
+  | isFirst, last, (s, w) :: rest =>
+    match procPulse w with
+    | .error e => .error e
+    | .ok p =>
+      let z := zeroChunk isFirst p.mode
+      match (if absR (s - last) > thr then idle p.mode s last p.step else .ok []) with
+      | .error e => .error e
+      | .ok idl =>
+        let ex := p.gt.map (· + s)
+        match chanLoopG thr false (ex.getLast?.getD last) rest with
+        | .error e => .error e
+        | .ok (ts, cs, l) =>
+          .ok (z.1 ++ (idl ++ (ex ++ ts)), z.2 ++ (idl.map (fun _ => 0) ++ (p.cs ++ cs)), l)
+
+def padChanS (τ : Rat) (pm : Mode) (final ms : Rat) (r : List Rat × List Rat × Rat) :
+    Except Err (Option (List Rat × List Rat)) :=
+  match padChan τ pm final ms r with
+  | .error e => .error e
+  | .ok o => .ok (some o)
+
+/-- `_concatenate_pulses` with the repaired gap test; `emptyOk`: fixes/C12-2.patch applied as well -/
+def concatenateG (emptyOk : Bool) (ρ τ : Rat) (chans : List (List (Rat × Wave))) :
+    Except Err (List (Option (List Rat × List Rat))) :=
+  match mapMExcept (chanLoopG (ρ * maxStart chans) true 0) chans with
+  | .error e => .error e
+  | .ok rs =>
+    if emptyOk then
+      let final := (maxList ((rs.filter (fun r => !r.1.isEmpty)).map (·.2.2))).getD 0
+      match minStep (procs chans), (procs chans).getLast? with
+      | some ms, some lastp => mapMExcept (padChanO τ lastp.mode final ms) rs
+      | _, _ => .ok (rs.map fun _ => none)
+    else
+      if chans.any (·.isEmpty) then .error .index else
+      match maxList (rs.map (·.2.2)), minStep (procs chans), (procs chans).getLast? with
+      | some final, some ms, some lastp => mapMExcept (padChanS τ lastp.mode final ms) rs
+      | _, _, _ => .error .empty
+
 /-! ## `_schedule` and the grouping loop of `compile` -/
 
 /-- coefficient of one pulse of an instruction -/
@@ -271,8 +318,8 @@ def compile (byTol : Bool) (τ : Rat) (instrs : List Instr) (sch : Option (List 
       | .ok outs => some (.ok (some ((groups.map (·.1)).zip outs)))
 
 /-- `GateCompiler.compile` with the variants of the working tree: `dropZero` — instructions of zero duration are
-dropped before scheduling (`[ins for ins in instruction if ins.duration != 0]`); `emptyOk` — fixes/C12-2.patch -/
-def compileV (dropZero emptyOk byTol : Bool) (τ : Rat) (instrs0 : List Instr) (sch : Option (List Rat × List Nat)) :
+dropped before scheduling (`[ins for ins in instruction if ins.duration != 0]`); `emptyOk` — fixes/C12-2.patch; `gap = some ρ` — fixes/C12-3.patch -/
+def compileV (dropZero emptyOk byTol : Bool) (gap : Option Rat) (τ : Rat) (instrs0 : List Instr) (sch : Option (List Rat × List Nat)) :
     Option (Except Err (Option (List (Nat × Option (List Rat × List Rat))))) :=
   let instrs := if dropZero then instrs0.filter (fun i => i.duration != 0) else instrs0
   if instrs.isEmpty then some (.ok none) else
@@ -282,6 +329,12 @@ def compileV (dropZero emptyOk byTol : Bool) (τ : Rat) (instrs0 : List Instr) (
     match groupPulses (is.zip starts) [] with
     | none => none
     | some groups =>
+      match gap with
+      | some ρ =>
+        match concatenateG emptyOk ρ τ (groups.map (·.2)) with
+        | .error e => some (.error e)
+        | .ok outs => some (.ok (some ((groups.map (·.1)).zip outs)))
+      | none =>
       if emptyOk then
         match concatenateZ byTol τ (groups.map (·.2)) with
         | .error e => some (.error e)
